@@ -49,7 +49,8 @@ SCENARIOS = {
 FAMILIES = {
     "quick": [("daily", "legacy"), ("billing", "billing"), ("hourly", "default")],
     "thorough": [("daily", "legacy"), ("billing", "billing"), ("hourly", "default"), ("daily", "current"), ("daily", "custommaps"),
-                 ("daily", "devmode"), ("hourly", "robust"), ("hourly", "dictseed"), ("caltrack", "caltrack")],
+                 ("daily", "devmode"), ("hourly", "robust"), ("hourly", "dictseed"), ("hourly", "solar"), ("hourly", "solar_tf"),
+                 ("hourly", "solar_dict"), ("caltrack", "caltrack")],
 }
 
 
@@ -102,7 +103,7 @@ def enumerate_histories(scen, fam, prof):
     return maximal, stats
 
 
-def expand(hist, scen, fam, aggs, salt, remote_restart):
+def expand(hist, scen, fam, aggs, salt, remote_restart, prof=""):
     """Abstract history -> executable script: lazy `make`, sweeps unfolded in a seeded order, restarts as fresh worlds."""
     s = SCENARIOS[scen]
     r = common.rng("expand", salt)
@@ -116,13 +117,14 @@ def expand(hist, scen, fam, aggs, salt, remote_restart):
         made.add(did)
         parts = did.split(":")
         if parts[0] == "b":
-            out.append({"op": "make", "d": did, "fam": fam, "kind": "baseline", "name": parts[1], "entry": r.choice(["frame", "series"]) if fam in ("daily", "billing") else "frame"})
+            out.append({"op": "make", "d": did, "fam": fam, "kind": "baseline", "name": parts[1], "ghi": solar, "entry": r.choice(["frame", "series"]) if fam in ("daily", "billing") else "frame"})
         elif parts[0] == "r":
-            out.append({"op": "make", "d": did, "fam": fam, "kind": "reporting", "name": parts[1], "obs": parts[2]})
+            out.append({"op": "make", "d": did, "fam": fam, "kind": "reporting", "name": parts[1], "obs": parts[2], "ghi": solar})
         else:
             other = "hourly" if fam in ("daily", "billing") else "daily"
             out.append({"op": "make", "d": did, "fam": other, "kind": "reporting", "name": parts[1], "obs": "orig"})
 
+    solar = fam == "hourly" and prof.startswith("solar")
     for a in hist:
         a = dict(a)
         op = a["op"]
@@ -215,7 +217,7 @@ def run_property(prop, tier, scen_list, per_scen, assumptions, rule, extra_jobs=
             for k, h in enumerate(chosen):
                 tid += 1
                 remote = (tier == "thorough") or (k % 4 == 0)
-                script = expand(h, scen, fam, st["aggs"], "%s/%s/%s/%d" % (prop, scen, fam, k), remote)
+                script = expand(h, scen, fam, st["aggs"], "%s/%s/%s/%d" % (prop, scen, fam, k), remote, prof)
                 jobs.append({"tid": tid, "hist": script, "abstract": h, "scenario": scen, "fam": fam, "prof": prof})
     for j in (extra_jobs or []):
         tid += 1
